@@ -93,8 +93,20 @@ def is_a(s, name, anc):
     return anc in supers(s, name)
 
 
-def schema_c10(rng, idx):
-    """references, lists, an ANDOR family for complex instances, forward refs and cycles are possible everywhere"""
+KW_LENGTHS = [1, 31, 74, 100, 101, 114, 200]     # exp2cxx supports entity names up to 200 characters
+
+
+def long_name(n, tag="k"):
+    """an EXPRESS identifier of exactly n characters (letters, digits, underscores)"""
+    if n == 1:
+        return tag[0]
+    body = (tag + "w" + "ab3_cd9_" * (n // 8 + 1))[:n - 1]
+    return body + "z"
+
+
+def schema_c10(rng, idx, kwlens=None):
+    """references, lists, an ANDOR family for complex instances, forward refs and cycles are possible everywhere;
+    kwlens: extra entities whose names have exactly these lengths (keyword length is a size boundary of the scanner)"""
     nm = f"lz{idx}"
     ents = [
         {"name": "nd", "attrs": [("name", "str", None), ("nxt", "optref", "nd")]},
@@ -111,6 +123,8 @@ def schema_c10(rng, idx):
             t = rng.choice(["nd", "grp", "base"] + [f"x{i}" for i in range(j + 1)]) if "ref" in k else None
             attrs.append((f"a{a}", k, t))
         ents.append({"name": f"x{j}", "attrs": attrs})
+    for n in (kwlens if kwlens is not None else KW_LENGTHS[idx % 4::4]):
+        ents.append({"name": long_name(n), "attrs": [("ln", "str", None), ("lr", "optref", "nd"), ("ls", "setref", "nd")]})
     return {"name": nm, "entities": ents}
 
 
@@ -125,6 +139,8 @@ def schema_c11(rng, idx, ninv=None, complex_ref=False, mi=False, deep=False, red
             {"name": "rel", "attrs": [("one", "optref", "tg"), ("many", "setref", "tg"), ("oth", "optref", "tg")]},
             {"name": "rsub", "sup": "rel", "attrs": [("z", "int", None)]},
             {"name": "rsub2", "sup": "rsub", "attrs": [("zz", "int", None)]},
+            # a referrer entity with a long name: the candidate test reads the keyword back from the file (typeFromFile)
+            {"name": long_name([101, 114, 100, 74, 200, 31][idx % 6], "r"), "sup": "rel", "attrs": [("zl", "int", None)]},
             {"name": "qel", "attrs": [("q1", "optref", "tg"), ("qs", "listref", "tg"), ("w", "optref", "tsub")]},
             ]
     if complex_ref:
